@@ -401,6 +401,9 @@ structure Facts where
   /-- the API layer (gateway `isValidKey`) refuses empty and > 65535-byte keys with an error before a
       treasure is created, so that no unencodable key can reach `Write` through the API -/
   apiValidatesKeys : Tri
+  /-- `openExistingFile` truncates the file behind the last complete block (proved to be the identity
+      on every file the writer leaves behind: `openExisting_ok`) -/
+  openCutsTornTail : Tri
   deriving Repr
 
 def cfgOf (f : Facts) : Cfg :=
@@ -410,7 +413,8 @@ def cfgOf (f : Facts) : Cfg :=
     flushGe := f.flushCmp != .gt
     flushAtCount := f.flushAtCount.isYes
     deleteRemoves := f.deleteRemoves.isYes
-    chronSurfacesError := f.chronSurfacesError.isYes || f.apiValidatesKeys.isYes }
+    chronSurfacesError := f.chronSurfacesError.isYes || f.apiValidatesKeys.isYes
+    openCutsTornTail := f.openCutsTornTail.isYes }
 
 /-- the model's fixed layout is the code's layout -/
 def layoutOk (f : Facts) : Bool :=
@@ -421,7 +425,7 @@ def layoutOk (f : Facts) : Bool :=
 
 def hasUnknown (f : Facts) : Bool :=
   f.rejectsEmptyKey == .unknown || f.rejectsLongKey == .unknown || f.flushCmp == .unknown ||
-  f.flushAtCount == .unknown || f.deleteRemoves == .unknown ||
+  f.flushAtCount == .unknown || f.deleteRemoves == .unknown || f.openCutsTornTail == .unknown ||
   (f.chronSurfacesError != .yes && f.apiValidatesKeys != .yes && (f.chronSurfacesError == .unknown || f.apiValidatesKeys == .unknown))
 
 def findings (f : Facts) : List String :=
@@ -448,7 +452,7 @@ theorem classify_sound (f : Facts) : (classify f).Sound (Holds (cfgOf f)) (Parti
     · trivial
     · rename_i hl hu
       simp only [hasUnknown, Bool.or_eq_true, beq_iff_eq, not_or] at hu
-      obtain ⟨⟨⟨⟨⟨hu1, hu2⟩, _⟩, hu4⟩, hu5⟩, hu6⟩ := hu
+      obtain ⟨⟨⟨⟨⟨⟨hu1, hu2⟩, _⟩, hu4⟩, hu5⟩, _⟩, hu6⟩ := hu
       have hpart : Partial f := by
         intro hd
         exact replays_partial (cfgOf f) (by simp [cfgOf, hd, Tri.isYes])
